@@ -3,23 +3,35 @@ import ControlModel.Model.RoleTree
 import ControlModel.Model.RoleTreeConc
 import ControlModel.Spec.C11
 import ControlModel.Spec.C11Conc
+import ControlModel.Model.RoleTraits
+import ControlModel.Spec.C11Traits
 
 namespace Driver.C11
 open RoleTree
 
-partial def parseForest : List SExp → Option Forest
+/-- `(T crit)`, `(C crit)`: basic task / call; `(T crit TRIGGER)`, `(C crit TRIGGER)`: hook. -/
+partial def parseTForest : List SExp → Option TForest
   | [] => some .nil
   | .list (.atom "A" :: kids) :: rest => do
-      let k ← parseForest kids
-      let n ← parseForest rest
+      let k ← parseTForest kids
+      let n ← parseTForest rest
       pure (.agg .STANDBY .INACTIVE k n)
   | .list [.atom "T", c] :: rest => do
-      let n ← parseForest rest
-      pure (.leaf false (← c.bool?) .STANDBY .INACTIVE n)
+      let n ← parseTForest rest
+      pure (.leaf false ⟨← c.bool?, false⟩ .STANDBY .INACTIVE n)
   | .list [.atom "C", c] :: rest => do
-      let n ← parseForest rest
-      pure (.leaf true (← c.bool?) .STANDBY .INACTIVE n)
+      let n ← parseTForest rest
+      pure (.leaf true ⟨← c.bool?, false⟩ .STANDBY .INACTIVE n)
+  | .list [.atom "T", c, .atom trig] :: rest => do
+      let n ← parseTForest rest
+      pure (.leaf false ⟨← c.bool?, !trig.isEmpty⟩ .STANDBY .INACTIVE n)
+  | .list [.atom "C", c, .atom trig] :: rest => do
+      let n ← parseTForest rest
+      pure (.leaf true ⟨← c.bool?, !trig.isEmpty⟩ .STANDBY .INACTIVE n)
   | _ => none
+
+/-- The concurrent model (Model/RoleTreeConc.lean) works on the tree without traits. -/
+def parseForest (xs : List SExp) : Option Forest := (parseTForest xs).map forget
 
 def parsePath (p : SExp) : Option (List Nat) := do
   (← p.list?).mapM? SExp.nat?
@@ -29,15 +41,15 @@ def parseUpdate : SExp → Option Update
   | .list [.atom "U", p, .atom v] => do pure (.status (← parsePath p) (← TStatus.parse? v))
   | _ => none
 
-def dumpSx (f : Forest) : SExp :=
-  .list ((dump f).map fun (s, u) => .list [.atom s.name, .atom u.name])
+def dumpSx (f : TForest) : SExp :=
+  .list ((dumpT f).map fun (s, u) => .list [.atom s.name, .atom u.name])
 
 /-- Refill a forest's values from a pre-order dump. -/
-def refill : Forest → List (TState × TStatus) → Option (Forest × List (TState × TStatus))
+def refill : TForest → List (TState × TStatus) → Option (TForest × List (TState × TStatus))
   | .nil, d => some (.nil, d)
-  | .leaf c crit _ _ next, (s, u) :: d => do
+  | .leaf c tr _ _ next, (s, u) :: d => do
       let (n, d') ← refill next d
-      pure (.leaf c crit s u n, d')
+      pure (.leaf c tr s u n, d')
   | .agg _ _ kids next, (s, u) :: d => do
       let (k, d1) ← refill kids d
       let (n, d2) ← refill next d1
@@ -95,11 +107,11 @@ def processLine (line : String) : String :=
     match SExp.parse inp with
     | some (.list [.atom "conc", tree, .list pre, .list thr, .list sched]) => processConc tree pre thr sched impl
     | some (.list [tree, .list ups]) =>
-      match parseForest [tree], ups.mapM? parseUpdate with
+      match parseTForest [tree], ups.mapM? parseUpdate with
       | some f, some us =>
-        let model := SExp.list ((trace f us).map dumpSx)
+        let model := SExp.list ((traceT f us).map dumpSx)
         -- Spec on what the implementation reported
-        let implForests : Option (List Forest) := do
+        let implForests : Option (List TForest) := do
           let ds ← (← SExp.parse impl).list?
           ds.mapM? fun d => do
             let (g, rest) ← refill f (← parseDump d)
@@ -108,10 +120,10 @@ def processLine (line : String) : String :=
           match implForests with
           | none => (false, "-")
           | some gs =>
-            let sOk := gs.all stateOk
-            let uOk := gs.all statusOk
+            let sOk := gs.all stateOkT
+            let uOk := gs.all statusOkT
             if sOk && uOk then (true, "-")
-            else if uOk && !(noBarren f) then (false, "barren_aggregator")
+            else if uOk && !(noBarrenT f) then (false, "barren_aggregator")
             else (false, "-")
         s!"{model}\t{if spec then 1 else 0}\t{hyp}"
       | _, _ => "BADINPUT\t0\t-"
